@@ -25,7 +25,7 @@ from sim.engine_fault import make_exact_engine
 
 PROP = 'C18'
 WL_DIR = os.path.join(core.VERIF, 'workloads')
-WL_FILES = {'main': 'c18_main.py', 'alt': 'c18_alt.py', 'cap': 'c18_captured.py', 'fac': 'c18_factory.py'}
+WL_FILES = {'main': 'c18_main.py', 'alt': 'c18_alt.py', 'cap': 'c18_captured.py', 'fac': 'c18_factory.py', 'lib': 'c18_lib.py'}
 CTX_NAMES = [None, 'FP64', 'FP32', 'FP16', 'RTZ16', 'RTP16', 'RTN32', 'RAZ8', 'MP5', 'FX4', 'REAL', 'FXF', 'MP40', 'FXM']
 HOT = frozenset(['eval', 'compile', 'to_value', 'from_value', '_mpfr_call_with_prec', '__iter__', 'mpfr_call',
                  '_visit_context', '_normalize', 'register', '_func_ctx', '_call_fpy', '_eval_call', 'round'])
@@ -263,7 +263,7 @@ def gen_run(seed: int, tier: str, sub: str) -> dict:
     r = random.Random(seed)
     for n in WL_FILES:
         load_ns(n)       # the template holds every namespace before any run is forked
-    meta = {n: load_ns(n) for n in (('cap',) if sub == 'captured' else ('main', 'alt'))}
+    meta = {n: load_ns(n) for n in (('cap',) if sub == 'captured' else ('main', 'alt', 'lib'))}
     nthreads = r.choice([1, 2, 2, 3, 3, 4])
     cfg = {
         'sub': sub,
@@ -297,11 +297,12 @@ def gen_run(seed: int, tier: str, sub: str) -> dict:
     if cfg['sweep']:
         # context sweep: one or two functions that compute under the caller's context, the same
         # arguments, several contexts -- "the same function under another context" as history
-        amb = [n for n in meta['main'].get('AMBIENT', []) if n in meta['main']['SIG']]
+        sns = 'lib' if r.random() < 0.3 else 'main'
+        amb = [n for n in meta[sns].get('AMBIENT', []) if n in meta[sns]['SIG']]
         for name in r.sample(amb, r.randint(1, 2)):
-            args = catalogue('main', name, meta['main']['SIG'][name])[r.randrange(4)]
+            args = catalogue(sns, name, meta[sns]['SIG'][name])[r.randrange(4)]
             for cname in r.sample(CTX_NAMES, r.randint(3, 5)):
-                call_pool.append(('main', name, args, cname))
+                call_pool.append((sns, name, args, cname))
     elif sub != 'captured' and r.random() < 0.3:
         # failure runs: programs that fail half-way (below a call, inside nested `with` blocks, in a
         # primitive) mixed with functions computing under the caller's or the default context
@@ -418,7 +419,7 @@ def execute_run(run: dict) -> dict:
     cfg = run['cfg']
     n = cfg['nthreads']
     spaces: dict[str, dict] = {}
-    for ns in (('cap',) if cfg['sub'] == 'captured' else ('main', 'alt')):
+    for ns in (('cap',) if cfg['sub'] == 'captured' else ('main', 'alt', 'lib')):
         spaces[ns] = load_ns(ns)
     derived: dict[str, object] = {}
     history: list[dict] = []
